@@ -172,3 +172,22 @@ def compare(case, impl, model):
         # libm exp/ln are not modelled for floats: the exact oracle decides alone; only the NaN guard is compared
         return (impl == 'nan') == (len(xs) == 0)
     return same_float_tok(impl, model)
+
+
+# ---- extraction cross-check: the same cases evaluated inside Coq by vm_compute
+from tools.lib import coq_float, float_tok_bits
+COQ_IMPORTS = 'Model.Stats'
+
+
+def coq_term(case):
+    cmd, sample, xs = parse(case)
+    if cmd == 'geom':
+        return None
+    l = '[%s]%%float' % '; '.join(coq_float(x) for x in xs)
+    if cmd == 'mean':
+        return '[opt_float_bits (@arith_mean float FNum %s)]' % l
+    return '[opt_float_bits (@std_dev float FNum %s %s)]' % (l, 'true' if sample else 'false')
+
+
+def encode_result(case, model_line):
+    return [float_tok_bits(model_line)]
